@@ -9,6 +9,7 @@ use vkit::ledger::Ledger;
 #[global_allocator]
 static GLOBAL: Ledger = Ledger;
 
+mod arcad;
 mod vecad;
 
 fn main() {
@@ -20,6 +21,7 @@ fn main() {
     vkit::silence_panics();
     match args[1].as_str() {
         "vec" => vecad::main(&args[2..]),
+        "arc" => arcad::main(&args[2..]),
         m => {
             eprintln!("TOOL-ERROR unknown module {}", m);
             std::process::exit(2);
